@@ -57,6 +57,8 @@ def normalize(raw, pinned=False):
     on = "col" if concrete else raw["on"]
     croot = raw.get("croot", "table") if concrete else None
     rc = raw["classes"][:MAX_CLASSES]
+    if croot == "abstract_doc" and not pinned:
+        croot = "abstract"
     if concrete and len(rc) == 1:
         croot = "plain"
     abstract_root = concrete and croot in ("abstract", "abstract_doc") and len(rc) > 1
@@ -251,8 +253,7 @@ def _build(cfg) -> Built:
                 if c["poly"]:
                     pj = b.pjoins[0]
                     kw.update(with_polymorphic=("*", pj), polymorphic_on=pj.c.type)
-                if cfg["croot"] != "plain":
-                    kw["polymorphic_identity"] = ident(cfg, 0)
+                kw["polymorphic_identity"] = ident(cfg, 0)
                 reg.map_imperatively(pyclasses[0], b.tables[0], **kw)
                 continue
             if c["poly"]:
